@@ -23,6 +23,8 @@ pub fn build(route: usize, K: usize, cfg: &Oti, data: &[u8]) -> SourceBlockEncod
 }
 
 fn run_one(ctx: &Ctx, gf: &Gf, rel: &Relations, K: usize, T: usize, route: usize, seed: u64, counts: &[AtomicU64; 6]) -> Option<SourceBlockEncoder> {
+    crashlog::set_case_fields(&["K", "T", "route", "data_seed"]);
+    crashlog::note(crashlog::CASE, &[K as u64, T as u64, route as u64, seed]);
     let mut rng = Rng::new(seed);
     let data = rng.bytes(K * T);
     let cfg = Oti::new((K * T) as u64, T as u16, 1, 1, 1);
